@@ -1,9 +1,11 @@
 import GapicModel.Model.Paging
+import GapicModel.Lemmas.C07Steps
 /-
 C07 — paginated methods yield every item of every page exactly once, in order.
 -/
 namespace GapicModel.Props.C07
 open GapicModel.Model.Paging
+open GapicModel.Lemmas.C07Steps
 
 /-! ## Classification -/
 
@@ -184,6 +186,42 @@ theorem request_tokens (r0 : Req ρ) (p0 : Page ι) (srv : List (Page ι)) :
       simp only [takeThrough] at this ⊢
       exact List.cons_prefix_cons.mpr ⟨rfl, this⟩
 
+/-- **The requests, exactly**: the caller's request, then one request per page received before the
+last one, each the caller's request with `page_token` replaced by that page's token (so: call
+count = page count, tokens threaded in order, every other field and the call options unchanged).
+Unconditional: also when the scripted history runs out. -/
+theorem requests_exact (r0 : Req ρ) (p0 : Page ι) (srv : List (Page ι)) :
+    (run r0 (p0 :: srv)).2 =
+      r0 :: (takeThrough (p0 :: srv)).dropLast.map (fun p => (⟨p.token, r0.other⟩ : Req ρ)) := by
+  suffices h : ∀ (srv : List (Page ι)) (st : PState ι ρ),
+      (pagesGen st srv).2.1 = (takeThrough (st.resp :: srv)).dropLast.map (fun p => (⟨p.token, st.req.other⟩ : Req ρ)) by
+    simp only [run]
+    rw [h srv ⟨r0, p0⟩]
+  intro srv
+  induction srv with
+  | nil => intro st; by_cases h : st.resp.token = [] <;> simp [pagesGen, takeThrough, h]
+  | cons q srv ih =>
+    intro st
+    by_cases h : st.resp.token = []
+    · simp [pagesGen, takeThrough, h]
+    · have hne : takeThrough (q :: srv) ≠ [] := by
+        simp only [takeThrough]; split <;> simp
+      simp only [pagesGen, h, if_false]
+      rw [ih ⟨{ st.req with token := st.resp.token }, q⟩]
+      have : takeThrough (st.resp :: q :: srv) = st.resp :: takeThrough (q :: srv) := by
+        simp [takeThrough, h]
+      rw [this, List.dropLast_cons_of_ne_nil hne]
+      simp
+
+/-- call count = page count -/
+theorem call_count_eq_page_count (r0 : Req ρ) (p0 : Page ι) (srv : List (Page ι)) :
+    (run r0 (p0 :: srv)).2.length = (takeThrough (p0 :: srv)).length := by
+  rw [requests_exact]
+  have : takeThrough (p0 :: srv) ≠ [] := by simp only [takeThrough]; split <;> simp
+  simp only [List.length_cons, List.length_map, List.length_dropLast]
+  have : 0 < (takeThrough (p0 :: srv)).length := List.length_pos_iff.mpr this
+  omega
+
 /-- **Attributes of the pager are those of the most recent page**: after iteration, `_response`
 is the last page yielded. -/
 theorem attrs_are_last_page (st : PState ι ρ) (srv : List (Page ι)) :
@@ -200,6 +238,225 @@ theorem attrs_are_last_page (st : PState ι ρ) (srv : List (Page ι)) :
       · exact this
       · intro hnil; simp [hnil] at this
   
+
+/-! ## The pager as an object: every PROGRAM over its generators (small-step model)
+
+`pager.pages` and `iter(pager)` / `pager.__aiter__()` create generator objects that share the pager's
+`_request` / `_response`.  A program is any finite sequence of `Op`s: create a generator, advance
+generator `i` once, read an attribute — any number of generators, in any interleaving, consumed as
+far as the caller likes. -/
+
+section Aux
+
+theorem takeThrough_append (pre : List (Page ι)) (x : Page ι) (rest : List (Page ι))
+    (h : ∀ q ∈ pre, q.token ≠ []) :
+    takeThrough (pre ++ x :: rest) = pre ++ takeThrough (x :: rest) := by
+  induction pre with
+  | nil => simp
+  | cons a pre ih =>
+    have ha := h a (by simp)
+    have ih' := ih (fun q hq => h q (by simp [hq]))
+    show takeThrough (a :: (pre ++ x :: rest)) = a :: (pre ++ takeThrough (x :: rest))
+    rw [← ih']
+    simp [takeThrough, ha]
+
+theorem takeThrough_head (x : Page ι) (rest : List (Page ι)) :
+    (takeThrough (x :: rest))[0]? = some x := by
+  simp only [takeThrough]
+  split <;> simp
+
+end Aux
+
+/-- **For every program, tokens are threaded and nothing else changes**: the pages received before
+the current one (`pre`) all carried a token; the pager sent exactly those tokens, in that order, one
+request per page, each on a request whose other fields and call options are the caller's; the pages
+are taken from the server in server order. -/
+theorem program_requests_thread_tokens (r0 : Req ρ) (p0 : Page ι) (srv : List (Page ι)) (prog : List Op) :
+    ∃ pre, p0 :: srv = pre ++ (exec (World.init r0 p0 srv) prog).2.resp :: (exec (World.init r0 p0 srv) prog).2.srv ∧
+      (∀ p ∈ pre, p.token ≠ []) ∧
+      (exec (World.init r0 p0 srv) prog).2.sent.map (·.token) = pre.map (·.token) ∧
+      (∀ r ∈ (exec (World.init r0 p0 srv) prog).2.sent, r.other = r0.other) := by
+  obtain ⟨pre, h1, h2, h3, h4, _⟩ := (Good.init r0 p0 srv).exec prog
+  exact ⟨pre, h1, h2, h3, h4⟩
+
+/-- **For every program, the pager never goes past the first empty token, and its attributes are
+those of the most recent page**: after `n` requests of the pager, `_response` is page `n` of the
+history cut after the first empty token (in particular `n` is a valid index of that cut). -/
+theorem program_attrs_most_recent_page (r0 : Req ρ) (p0 : Page ι) (srv : List (Page ι)) (prog : List Op) :
+    (takeThrough (p0 :: srv))[(exec (World.init r0 p0 srv) prog).2.sent.length]? =
+      some (exec (World.init r0 p0 srv) prog).2.resp := by
+  obtain ⟨pre, h1, h2, h3, _⟩ := program_requests_thread_tokens r0 p0 srv prog
+  have hl : (exec (World.init r0 p0 srv) prog).2.sent.length = pre.length := by
+    have := congrArg List.length h3
+    simpa using this
+  rw [h1, takeThrough_append pre _ _ h2, hl, List.getElem?_append_right (Nat.le_refl _)]
+  simp only [Nat.sub_self]
+  exact takeThrough_head _ _
+
+/-- `pager.<attr>` reads the current `_response` and sends nothing. -/
+theorem attr_reads_current_page (w : World ι ρ) :
+    step w .attr = (.tok w.resp.token, w) := rfl
+
+/-- **Advancing item iterator `i` `k` times** returns the first `k` items of its future (what it still
+holds of its page, then the items of the pages of the big-step loop from the pager's current
+state), then `StopIteration` for ever. -/
+theorem iterate_k_times (k : Nat) (w : World ι ρ) (i : Nat) (it : GenSt × List ι) (h : w.its[i]? = some it) :
+    (exec w (List.replicate k (.nextItem i))).1 =
+      ((future it w).take k).map .item ++ List.replicate (k - (future it w).length) .stop := by
+  induction k generalizing w it with
+  | zero => simp [exec]
+  | succ k ih =>
+    simp only [List.replicate_succ, exec, step, h]
+    obtain ⟨g, buf⟩ := it
+    have hs := itemNext_spec (w.srv.length + 2) g buf w (need_le g w)
+    have hits := itemNext_its (w.srv.length + 2) (g, buf) w
+    have hi : i < w.its.length := by
+      rcases Nat.lt_or_ge i w.its.length with hlt | hge
+      · exact hlt
+      · simp [List.getElem?_eq_none hge] at h
+    generalize hr : itemNext (w.srv.length + 2) (g, buf) w = r at hs hits
+    have hset : ({ r.2.2 with its := r.2.2.its.set i r.2.1 } : World ι ρ).its[i]? = some r.2.1 := by
+      simp [hits, hi]
+    have hfut := future_congr r.2.1 r.2.2 { r.2.2 with its := r.2.2.its.set i r.2.1 } rfl rfl rfl
+    have := ih _ r.2.1 hset
+    rw [this, hfut, hs.2]
+    cases hfu : future (g, buf) w with
+    | nil =>
+      have h1 : r.1 = none := by simpa [hfu] using hs.1
+      simp [h1, List.replicate_succ]
+    | cons x xs =>
+      have h1 : r.1 = some x := by simpa [hfu] using hs.1
+      simp [h1]
+
+/-- **Refinement: `list(pager)` on a fresh pager, consumed `k` items far, is the big-step `run`**
+(all items when `k` exceeds their number; a caller that stops early has seen a prefix). -/
+theorem list_pager_eq_run (r0 : Req ρ) (p0 : Page ι) (srv : List (Page ι)) (k : Nat) :
+    (exec (World.init r0 p0 srv) (.newIter :: List.replicate k (.nextItem 0))).1 =
+      .unit :: (((run r0 (p0 :: srv)).1.take k).map .item ++
+                List.replicate (k - (run r0 (p0 :: srv)).1.length) .stop) := by
+  simp only [exec, step]
+  rw [iterate_k_times k _ 0 (.fresh, []) (by simp [World.init])]
+  simp [future, pagesFrom, run, World.init]
+
+/-- a generator created while another one is under way starts at the pager's CURRENT page (the
+cursor is the pager's, not the generator's) and walks on to the first empty token. -/
+theorem fresh_iterator_starts_at_current_page (w : World ι ρ) :
+    future (.fresh, []) w = (takeThrough (w.resp :: w.srv)).flatMap (·.items) := by
+  simp [future, pagesFrom, pagesGen_pages]
+
+/-- iterating a pager that has been consumed to the end once more yields the items of the LAST page
+again (not all items, not nothing), and sends nothing. -/
+theorem reiteration_yields_last_page (k : Nat) (w : World ι ρ) (h : w.resp.token = []) :
+    (exec w (.newIter :: List.replicate k (.nextItem w.its.length))).1 =
+      .unit :: ((w.resp.items.take k).map .item ++ List.replicate (k - w.resp.items.length) .stop) := by
+  simp only [exec, step]
+  rw [iterate_k_times k _ w.its.length (.fresh, []) (by simp)]
+  have : future (.fresh, ([] : List ι)) ({ w with its := w.its ++ [(.fresh, [])] } : World ι ρ) = w.resp.items := by
+    simp [future, pagesFrom, pagesGen_stop (ρ := ρ) ⟨w.req, w.resp⟩ w.srv (Or.inl h)]
+  rw [this]
+
+/-- **Pages are fetched on demand only**: creating generators and reading attributes send nothing; an
+item iterator that still holds an item of its page returns it and sends nothing; one `next` on a
+`pages` generator sends at most one request. -/
+theorem requests_only_on_demand (w : World ι ρ) :
+    (step w .newPages).2.sent = w.sent ∧ (step w .newIter).2.sent = w.sent ∧ (step w .attr).2.sent = w.sent ∧
+    (∀ i g x buf, w.its[i]? = some (g, x :: buf) →
+        (step w (.nextItem i)).1 = .item x ∧ (step w (.nextItem i)).2.sent = w.sent ∧
+        (step w (.nextItem i)).2.resp = w.resp ∧ (step w (.nextItem i)).2.srv = w.srv) ∧
+    (∀ j, (step w (.nextPage j)).2.sent.length ≤ w.sent.length + 1) := by
+  refine ⟨rfl, rfl, rfl, ?_, ?_⟩
+  · intro i g x buf h
+    simp [step, h, itemNext]
+  · intro j
+    simp only [step]
+    cases hj : w.gens[j]? with
+    | none => simp
+    | some g =>
+      cases g with
+      | fresh => simp [genNext]
+      | done => simp [genNext]
+      | running =>
+        simp only [genNext]
+        cases hfe : fetch w with
+        | none => simp
+        | some qw =>
+          unfold fetch at hfe
+          split at hfe
+          · simp at hfe
+          · split at hfe
+            · simp at hfe
+            · simp only [Option.some.injEq] at hfe
+              subst hfe
+              simp
+
+/-! ## Wiring: which methods return a pager -/
+
+/-- **A method is exposed as paginated exactly when the rule holds** (and it is not a
+google.longrunning method, whose response is an Operation): the wrapping branch of both client
+templates, composed with the classifier. -/
+theorem exposed_as_paginated_iff (k : MethodKind) (i o : Msg) (fullExt : Bool) :
+    wrapOf k (pagedField i o).isSome fullExt = .pager ↔ k.lro = false ∧ AIP4233 i o := by
+  have hp : (pagedField i o).isSome = true ↔ AIP4233 i o := by
+    constructor
+    · intro h
+      obtain ⟨f, hf⟩ := Option.isSome_iff_exists.mp h
+      exact ((paged_iff i o f).mp hf).1
+    · intro h
+      obtain ⟨f, hf⟩ := h.2.2.2
+      exact Option.isSome_iff_exists.mpr ⟨f, (paged_iff i o f).mpr ⟨h, hf⟩⟩
+  by_cases ha : AIP4233 i o
+  · have hpg := hp.mpr ha
+    cases hl : k.lro <;> simp [wrapOf, hpg, ha, hl]
+  · have hpg : (pagedField i o).isSome = false := by
+      cases h : (pagedField i o).isSome
+      · rfl
+      · exact absurd (hp.mp h) ha
+    cases hl : k.lro <;> cases he : k.extLro <;> cases fullExt <;> simp [wrapOf, hpg, he, ha, hl]
+
+/-- the pager built by the wrapping branch is the pager of this file (a first response MESSAGE and
+the caller's request) exactly for unary methods. -/
+theorem pager_gets_first_response_iff_unary (k : MethodKind) :
+    pagerArgs k = .firstResponse ↔ k.clientStreaming = false ∧ k.serverStreaming = false := by
+  unfold pagerArgs
+  cases k.clientStreaming <;> cases k.serverStreaming <;> simp
+
+/-- a server-streaming method whose messages satisfy the rule is classified and wrapped like any
+other, but its pager is built around the stream object: iterating it raises (run on the real code:
+`AttributeError: '_StreamingResponseIterator' object has no attribute …`); a client-streaming one
+raises `NameError: name 'request' is not defined` in the client method. -/
+theorem streaming_paged_pager_unusable_counterexample :
+    wrapOf ⟨false, false, false, false, true⟩ true true = .pager ∧
+    pagerArgs ⟨false, false, false, false, true⟩ = .streamAsResponse ∧
+    wrapOf ⟨false, false, false, true, false⟩ true false = .pager ∧
+    pagerArgs ⟨false, false, false, true, false⟩ = .nameError := by decide
+
+/-- what the client method builds agrees with the type `Method.client_output` announces … -/
+def Agrees : Wrap → OutKind → Prop
+  | .operation, .operation => True
+  | .pager, .pager => True
+  | .extOperation, .extOperation => True
+  | .raw, .message => True
+  | .raw, .none_ => True
+  | _, _ => False
+
+instance : ∀ a b, Decidable (Agrees a b) := by
+  intro a b; cases a <;> cases b <;> simp only [Agrees] <;> infer_instance
+
+/-- … for the sync client, unless the method is an extended operation whose messages also satisfy the
+pagination rule, or is void with an annotation that needs a response. -/
+theorem wrap_agrees_with_client_output_partial (k : MethodKind) (paged : Bool)
+    (h1 : ¬ (k.extLro = true ∧ paged = true)) (h2 : k.void = true → k.lro = false ∧ k.extLro = false ∧ paged = false) :
+    Agrees (wrapOf k paged true) (clientOutput k paged) := by
+  obtain ⟨v, l, e, cs, ss⟩ := k
+  cases v <;> cases l <;> cases e <;> cases paged <;> simp_all [wrapOf, clientOutput, Agrees]
+
+/-- the excluded point: the template takes the `paged_result_field` branch but instantiates
+`method.client_output` = `ExtendedOperation` with a pager's arguments (run on the real code:
+`TypeError: ExtendedOperation.__init__() missing 3 required positional arguments`). -/
+theorem extended_operation_paged_mismatch_counterexample :
+    ¬ Agrees (wrapOf ⟨false, false, true, false, false⟩ true true) (clientOutput ⟨false, false, true, false, false⟩ true) := by
+  decide
+
 /-! ## Non-vacuity -/
 
 /-- three pages with an empty middle page; the fourth is never fetched -/
@@ -223,5 +480,28 @@ theorem repeated_token_not_paged :
     pagedField
       [⟨"page_size", .int, false⟩, ⟨"page_token", .str, false⟩]
       [⟨"items", .str, true⟩, ⟨"next_page_token", .str, true⟩] = none := by decide
+
+/-- a program with two interleaved item iterators and a `pages` generator over a 4-page history with an
+empty middle page: what each `next` returns, and the three requests the pager sent -/
+example :
+    let r := exec (ρ := Unit) (World.init ⟨[], ()⟩ ⟨[1, 2], ['a']⟩ [⟨[], ['b']⟩, ⟨[3], ['c']⟩, ⟨[4], []⟩, ⟨[99], []⟩])
+      [.newIter, .nextItem 0, .attr, .newIter, .nextItem 1, .nextItem 0, .nextItem 0, .attr, .nextItem 1, .nextItem 1,
+       .newPages, .nextPage 0, .nextPage 0, .nextPage 0, .nextItem 0, .nextItem 0, .attr]
+    r.1 = [.unit, .item 1, .tok ['a'], .unit, .item 1, .item 2, .item 3, .tok ['c'], .item 2, .item 4,
+           .unit, .page ⟨[4], []⟩, .stop, .stop, .stop, .stop, .tok []] ∧
+    r.2.sent = [⟨['a'], ()⟩, ⟨['b'], ()⟩, ⟨['c'], ()⟩] := by decide
+
+/-- `iterate_k_times` / `reiteration_yields_last_page`: hypotheses met -/
+example : (World.init (ι := Nat) (ρ := Unit) ⟨[], ()⟩ ⟨[7, 8], []⟩ [⟨[9], []⟩]).resp.token = [] := rfl
+example : ({ World.init (ι := Nat) (ρ := Unit) ⟨[], ()⟩ ⟨[7], ['t']⟩ [⟨[9], []⟩] with its := [(.fresh, [])] } : World Nat Unit).its[0]?
+    = some (.fresh, []) := rfl
+
+/-- `requests_only_on_demand`: an iterator holding an item -/
+example : ({ World.init (ι := Nat) (ρ := Unit) ⟨[], ()⟩ ⟨[7], ['t']⟩ [⟨[9], []⟩] with its := [(.running, [7])] } : World Nat Unit).its[0]?
+    = some (.running, 7 :: []) := rfl
+
+/-- `wrap_agrees_with_client_output_partial`: a plain paged unary method meets the hypotheses -/
+example : ¬ ((⟨false, false, false, false, false⟩ : MethodKind).extLro = true ∧ true = true) ∧
+    ((⟨false, false, false, false, false⟩ : MethodKind).void = true → False) := by decide
 
 end GapicModel.Props.C07
